@@ -589,11 +589,16 @@ func (c *Ctx) depthBalanced(rule string) {
 				if !ok {
 					continue
 				}
-				mc, ok := df.Call.Value.(*ssa.MakeClosure)
-				if !ok {
+				var g *ssa.Function
+				switch x := df.Call.Value.(type) {
+				case *ssa.MakeClosure:
+					g, _ = x.Fn.(*ssa.Function)
+				case *ssa.Function:
+					g = x
+				}
+				if g == nil {
 					continue
 				}
-				g := mc.Fn.(*ssa.Function)
 				for _, gb := range g.Blocks {
 					for _, gin := range gb.Instrs {
 						if st, ok := gin.(*ssa.Store); ok {
